@@ -69,6 +69,7 @@ fn smtp_session<S: Read + Write>(s: &mut S, sc: &Value, inside_tls: bool, log: &
                 "inject" => { let _ = s.write_all(b"220 go\r\n250-evil\r\n250 AUTH PLAIN\r\n"); return Some("starttls"); }
                 "garbage" => { let _ = s.write_all(b"220 go\r\n"); return Some("garbage"); }
                 "close" => { let _ = s.write_all(b"220 go\r\n"); return None; }
+                "silent" => { let _ = s.write_all(b"220 go\r\n"); return Some("silent"); }
                 _ => { let _ = s.write_all(b"220 go\r\n"); return Some("starttls"); }
             }
         } else if up.starts_with("AUTH LOGIN") {
@@ -99,9 +100,16 @@ fn serve(mut sock: TcpStream, sc: Value, log: Arc<Mutex<Log>>) {
     let cert = sc["server"]["cert"].as_str().unwrap_or("good").to_string();
     let implicit = sc["server"]["implicit_tls"].as_bool().unwrap_or(false);
     let mut do_tls = implicit;
+    // a peer that takes the connection and then says nothing for longer than the client's timeout (2.5 s)
+    let silence = || std::thread::sleep(Duration::from_millis(3300));
+    if implicit && sc["server"]["starttls_reply"] == "silent" {
+        silence();
+        return;
+    }
     if !implicit {
         match smtp_session(&mut sock, &sc, false, &log, true) {
             Some("starttls") => do_tls = true,
+            Some("silent") => { silence(); return; }
             Some("garbage") => { let _ = sock.write_all(b"THIS IS NOT A TLS HANDSHAKE\r\n"); let mut t = [0u8; 512]; let _ = sock.read(&mut t); return; }
             _ => return,
         }
